@@ -122,6 +122,9 @@ def c04_jobs(tier):
         Job('alias-probe', 'c04', 'alias', q(tier, 160, 3000), max_crashes=1000, timeout=q(tier, 900, 7200)),
         # trees deeper than any deserializer lets through (they only come from API calls): depth-dependent observables at 126..700 levels
         Job('deep-chains', 'c04', 'deep', q(tier, 1500, 60000), timeout=q(tier, 900, 7200)),
+        # iterators held across insertions / removals of other elements, removal through a held iterator
+        Job('held-iterators', 'c04', 'iters', q(tier, 20000, 1000000), timeout=q(tier, 900, 7200)),
+        Job('held-iterators-tiny', 'c04', 'iters', q(tier, 8000, 300000), defines=TINY[0], timeout=q(tier, 900, 7200)),
         Job('deep-chains-small-ids', 'c04', 'deep', q(tier, 500, 20000), defines={'ARDUINOJSON_SLOT_ID_SIZE': 2, 'ARDUINOJSON_POOL_CAPACITY': 4, 'ARDUINOJSON_DEBUG': 1}, timeout=q(tier, 900, 7200)),
     ]
     if tier == 'thorough':
@@ -136,7 +139,7 @@ PROPS['C04'] = dict(
          'few keys and small indices so that slots are recycled; 23 operation kinds: typed set/add, to<T>, add<T>, remove by index/key/iterator, clear, '
          'value<-value copies between disjoint values and documents, document copy/move/swap/set/clear/shrinkToFit, deserializeJson/MsgPack into documents '
          'and nested values, read-only probes) of 10..1500 steps; plus ALL sequences of length <= L over a fixed 16-operation alphabet on tiny pool geometries; '
-         'plus aliasing assignments (self / ancestor / descendant) as final step (known-finding probe); plus chains of 2..700 nested arrays / objects built through the API (depths around 127/128, 255/256, 511/512: nesting() at every level, size, traversal, three serializers and their measures, deep copies, cutting the chain). After every step: every document and every live reference '
+         'plus aliasing assignments (self / ancestor / descendant) as final step (known-finding probe); plus chains of 2..700 nested arrays / objects built through the API (depths around 127/128, 255/256, 511/512: nesting() at every level, size, traversal, three serializers and their measures, deep copies, cutting the chain). plus arrays / objects (root or nested) with up to 4 iterators HELD across appends, removals by index / key, in-place overwrites and removals through a held iterator (each held iterator must keep reading its element; remove(iterator) removes exactly it). After every step: every document and every live reference '
          'extracted through the public API == ordered-tree model, inspector invariants, and observation must neither call the allocator nor change the concrete state hash. '
          'non-trivial = history of >= 10 steps (distinct by operation log) or a systematic sequence',
     jobs=c04_jobs,
